@@ -60,7 +60,15 @@ fn is_view(k: &OpKind) -> bool {
 fn run_iff(ctx: &mut Ctx, k: u64, r: &mut Rng) {
     let fams = ["unary", "binary", "matmul", "conv"];
     let fam = fams[(k % 4) as usize];
-    let case = match c02::gen_case(fam, k / 4 + if fam == "binary" { 7 * (k / 4) } else { 0 }, r) {
+    // unary: the shape walks with k, the operation (and its parameter) is drawn, so that the quick tier reaches the
+    // whole operation table
+    let kk = match fam {
+        "unary" => (k / 4) % 120 + 120 * r.below(64) as u64,
+        "binary" => k / 4 + 7 * (k / 4),
+        _ => k / 4,
+    };
+    let by_ref = LEAF_FLAGS_BY_REFERENCE.with(|c| c.get());
+    let case = match c02::gen_case(fam, kk, r) {
         Some(c) => c,
         None => return,
     };
@@ -75,7 +83,16 @@ fn run_iff(ctx: &mut Ctx, k: u64, r: &mut Rng) {
             let ops: Vec<Array> = (0..n)
                 .map(|i| {
                     let a = arr(&case.dims[i], &case.vals[i]);
-                    if mask[i] {
+                    if by_ref {
+                        if mask[i] {
+                            a.start_tracking();
+                            a
+                        } else {
+                            let a = a.tracked();
+                            a.stop_tracking();
+                            a
+                        }
+                    } else if mask[i] {
                         a.tracked()
                     } else {
                         a
